@@ -44,6 +44,19 @@ fn string_content() -> BoxedStrategy<String> {
     proptest::collection::vec(ch, 0..8).prop_map(|v| v.into_iter().collect()).boxed()
 }
 
+/// identifiers whose characters are written raw or as escapes (hex with terminating space, or `\c`)
+fn escaped_ident() -> BoxedStrategy<String> {
+    let ch = prop_oneof![
+        6 => proptest::char::range('a', 'z').prop_map(|c| c.to_string()),
+        1 => proptest::char::range('a', 'z').prop_map(|c| format!("\\{:x} ", c as u32)),
+        1 => proptest::char::range('0', '9').prop_map(|c| format!("\\{:x} ", c as u32)),
+        1 => prop_oneof![Just('é'), Just('ß'), Just('日'), Just('ü')].prop_map(|c| c.to_string()),
+        2 => prop_oneof![Just(0xa0u32), Just(0xa1), Just(0x9f), Just(0x80), Just(0x7f), Just(0xe9), Just(0x2603), Just(0x1f600), Just(0xe000), Just(0x20), Just(0x21), Just(0x2e), Just(0x7e), Just(0x2d), Just(0x5f), Just(0x301), Just(0xfeff), Just(0x10ffff)].prop_map(|c| format!("\\{c:x} ")),
+        1 => prop_oneof![Just('.'), Just('!'), Just('~'), Just('+'), Just('#'), Just('@'), Just('$'), Just('%'), Just('&'), Just('*'), Just('='), Just(':'), Just('/'), Just('?'), Just('|')].prop_map(|c| format!("\\{c}")),
+    ];
+    (proptest::char::range('a', 'z'), proptest::collection::vec(ch, 1..5)).prop_map(|(f, v)| format!("{f}{}", v.concat())).boxed()
+}
+
 fn ident() -> BoxedStrategy<String> {
     one_of(&["a", "bold", "sans-serif", "-moz-box", "_x", "x1", "é", "日本", "\\31 0", "\\31 x", "a\\.b", "a\\ b", "\\--x", "f\\6fo", "UPPER", "none", "inherit"])
 }
@@ -53,6 +66,7 @@ fn value() -> BoxedStrategy<String> {
     let hex = prop_oneof!["[0-9a-f]{3}", "[0-9a-f]{6}", "[0-9A-F]{6}", "[0-9a-f]{4}", "[0-9a-f]{8}"].prop_map(|h| format!("#{h}"));
     let single = prop_oneof![
         3 => ident(),
+        2 => escaped_ident(),
         3 => num,
         2 => hex,
         4 => string_content().prop_map(|s| scss_quote(&s)),
@@ -70,7 +84,7 @@ fn value() -> BoxedStrategy<String> {
 }
 
 fn decl() -> BoxedStrategy<String> {
-    (one_of(&["color", "width", "font-family", "content", "margin", "-webkit-x", "background", "transition", "grid-area", "é"]), value()).prop_map(|(p, v)| format!("{p}: {v};")).boxed()
+    (prop_oneof![6 => one_of(&["color", "width", "font-family", "content", "margin", "-webkit-x", "background", "transition", "grid-area", "é"]), 1 => escaped_ident()], value()).prop_map(|(p, v)| format!("{p}: {v};")).boxed()
 }
 
 fn selector() -> BoxedStrategy<String> {
@@ -78,6 +92,9 @@ fn selector() -> BoxedStrategy<String> {
         4 => sel::safe_list(),
         1 => one_of(&[".\\31 0", "#\\31 x", ".a\\.b", ".é", "#日本", "[data-x=\"a b\"]", "[k='it\\'s']", "a[href^=\"http://\"]", "[k=\"é\"]", "li:nth-child(2n + 1)", "a:not(.b):hover", "p::first-line", "ns|a", "*|*", "a > b ~ c + d", "h1, h2 > em, .x .y"]),
         1 => string_content().prop_map(|s| format!("[data-s={}]", scss_quote(&s))),
+        1 => escaped_ident().prop_map(|i| format!(".{i}")),
+        1 => escaped_ident().prop_map(|i| format!("#{i} > [{i}]")),
+        1 => (escaped_ident(), escaped_ident()).prop_map(|(i, j)| format!("a[{i}={j}]:hover")),
     ]
     .boxed()
 }
